@@ -105,5 +105,6 @@ declare_class(
         "primary_haplotype": TOpt(STR),
         "haplotig_scaffolds": TList(TRef("Scaffold")),
         "unloc_scaffolds": TList(TRef("Scaffold")),
+        "haplotype_lc_dict": TDict(STR, STR),
     },
 )
